@@ -163,6 +163,10 @@ impl Prop for C14 {
         ensure!(out, *untouched == c.text, "the untouched part changed: {untouched:?} vs {:?}", c.text);
         // determinism, same instance and fresh instance
         for rep in 0..4 {
+            if rep == 2 {
+                // another text and another seed in between: no state may be carried over
+                let _ = f(TrainData::new(format!("{} x y", c.text), None), TextDataInfo { seed: c.seed ^ 0x5a5a, ..Default::default() });
+            }
             ensure!(out, run(&*f) == Ok((input.clone(), target.clone())), "same (text, seed), different output on the same instance (call {})", rep + 2);
         }
         let f2 = make();
